@@ -3,6 +3,8 @@
 Space: all 1440 x 1440 (start, end) pairs through calc_duration (both tiers: the whole space
 costs a few seconds on 16 workers), plus, for every start and the ends {start-1, start,
 start+1, 00:00, 23:59, start+720}, the `duration` field of a constructed SwitcherSchedule.
+The same function is also run with the host in zones with DST (and odd offsets) on offset-change days under a
+pinned clock: the duration of a pair of clock times must not depend on the zone or on today's date.
 Oracle: modular arithmetic on minutes, formatted H:MM:SS.
 """
 from mc.core import Res
@@ -26,12 +28,21 @@ def ref_duration(s, e):
     return "%d:%02d:00" % divmod(d, 60)
 
 
+ZONE_DAYS = [("Europe/London", "2024-03-31"), ("Europe/London", "2024-10-27"), ("America/New_York", "2024-03-10"), ("America/New_York", "2024-11-03"),
+             ("Australia/Lord_Howe", "2024-10-06"), ("Australia/Lord_Howe", "2024-04-07"), ("Asia/Kathmandu", "2024-07-15"), ("Pacific/Kiritimati", "2024-12-31")]
+
+
 def jobs(tier, seed):
-    return [{"lo": lo, "hi": lo + 30} for lo in range(0, 1440, 30)]
+    js = [{"lo": lo, "hi": lo + 30} for lo in range(0, 1440, 30)]
+    for z, d in ZONE_DAYS:
+        js.append({"zone": z, "date": d, "tier": tier})
+    return js
 
 
-def _pair(res, s, e, via):
+def _pair(res, s, e, via, zone=None, date=None):
     case = {"start": s, "end": e, "via": via}
+    if zone:
+        case.update(zone=zone, date=date)
     exp = ref_duration(s, e)
     try:
         if via == "calc":
@@ -46,17 +57,42 @@ def _pair(res, s, e, via):
         res.case(None, nontrivial=False)
         res.violation(f"duration-raises:{via}", case, f"{via} duration {hm(s)}->{hm(e)} raised {type(exc).__name__}: {exc}", exp, repr(exc))
         return
-    res.case((via, s, e))
+    res.case((via, s, e, zone, date))
     if out != exp:
         kind = "wrap" if e < s else ("equal" if e == s else "forward")
-        res.violation(f"duration-wrong:{via}:{kind}", case, f"{via} duration {hm(s)}->{hm(e)} = {out!r}, expected {exp!r}", exp, out)
+        res.violation(f"duration-wrong:{via}:{kind}" + (":zone" if zone else ""), case, f"{via} duration {hm(s)}->{hm(e)} = {out!r}, expected {exp!r}" + (f" (host zone {zone}, today {date})" if zone else ""), exp, out)
     return out
+
+
+def zone_job(job, res):
+    """The duration of a pair must not depend on the host's zone or on today's date (offset-change days included)."""
+    import datetime
+
+    from mc.world import Clock, set_zone
+    from ref import zones as Z
+
+    zone, date = job["zone"], datetime.date.fromisoformat(job["date"])
+    set_zone(zone)
+    try:
+        with Clock(float(Z.epoch_at(zone, date, 12, 0, 0))):
+            step = 1 if job["tier"] == "thorough" else 7
+            for s in range(0, 1440, step):
+                for e in sorted({(s - 1) % 1440, s, (s + 1) % 1440, 0, 59, 60, 119, 120, 121, 179, 180, 181, 719, 1439, (s + 720) % 1440, (s + 150) % 1440}):
+                    _pair(res, s, e, "calc", zone=zone, date=job["date"])
+                for e in (0, 180, (s + 61) % 1440):
+                    _pair(res, s, e, "schedule", zone=zone, date=job["date"])
+    finally:
+        set_zone("UTC")
+    res.sample({"zone": zone, "date": job["date"], "start": "00:30", "end": "03:00", "expected": "2:30:00"})
+    return res
 
 
 def run_job(job):
     from aioswitcher.schedule.tools import calc_duration
 
     res = Res()
+    if "zone" in job:
+        return zone_job(job, res)
     for s in range(job["lo"], job["hi"]):
         hs = hm(s)
         for e in range(1440):
@@ -81,6 +117,19 @@ def run_job(job):
 
 def replay(case):
     res = Res()
+    if case.get("zone"):
+        import datetime
+
+        from mc.world import Clock, set_zone
+        from ref import zones as Z
+
+        set_zone(case["zone"])
+        try:
+            with Clock(float(Z.epoch_at(case["zone"], datetime.date.fromisoformat(case["date"]), 12, 0, 0))):
+                _pair(res, case["start"], case["end"], case["via"], zone=case["zone"], date=case["date"])
+        finally:
+            set_zone("UTC")
+        return res.violations
     _pair(res, case["start"], case["end"], case["via"])
     return res.violations
 
